@@ -168,8 +168,13 @@ class SymScenario(ScenarioBase):
     def flt(self, name, lo=None, hi=None, lo_strict=False, hi_strict=False):
         return self._mk(name, FLT, lo, hi, lo_strict, hi_strict)
 
-    def bool(self, name):
-        return self._mk(name, BOOL, None, None, False, False)
+    def bool(self, name, only_if=None):
+        """only_if: the flag may be True only when `only_if` holds (a dependency between inputs, e.g. collateral flag => token
+        usable as collateral); natively the sampler respects it instead of rejecting the sample."""
+        b = self._mk(name, BOOL, None, None, False, False)
+        if only_if is not None and not (only_if is True):
+            self.path.pc.append(z3.Implies(b.t, as_bool_term(only_if)))
+        return b
 
     def seq(self, name, kind=DEC, min_len=0, max_len=None, elem_pre=None, as_series=False):
         """Sequence of symbolic (unbounded) length; natively a list (or pandas Series) of concrete values."""
@@ -309,8 +314,16 @@ class ConcreteScenario(ScenarioBase):
     def flt(self, name, lo=None, hi=None, lo_strict=False, hi_strict=False):
         return self._get(name, FLT, lo, hi, lo_strict, hi_strict)
 
-    def bool(self, name):
-        return self._get(name, BOOL, None, None)
+    def bool(self, name, only_if=None):
+        fresh = name not in self.inputs
+        v = self._get(name, BOOL, None, None)
+        if only_if is not None and not only_if and v:
+            if fresh and name not in self.values:
+                v = False
+                self.inputs[name] = v
+            else:
+                self.rejected = True
+        return v
 
     def seq(self, name, kind=DEC, min_len=0, max_len=None, elem_pre=None, as_series=False):
         if name in self.inputs:
